@@ -215,8 +215,8 @@ fn transform(
             ));
         }
 
-        for index in 0..n {
-            operands[index] = operands[index] - buffer[index];
+        for (operand, original) in operands.iter_mut().zip(buffer.iter()) {
+            *operand = *operand - *original;
         }
 
         m
